@@ -587,6 +587,13 @@ HostCat == <<
   H(<<SUR>>, "surrogate", 0),
   H(S("a") \o <<SUR>>, "surrogate", 0),
   H(S("0") \o <<FWX>> \o S("7f.0.0.1"), "idna-mapped-hex-ipv4", 0),
+  \* characters that NFKC / IDNA mapping turns into URL delimiters (fullwidth solidus, question mark, number sign)
+  H(S("a") \o <<65295>> \o S("b"), "idna-maps-to-delimiter", 0),
+  H(S("a") \o <<65311>> \o S("b"), "idna-maps-to-delimiter", 0),
+  H(S("a") \o <<65283>> \o S("b"), "idna-maps-to-delimiter", 0),
+  \* the last C0 control character inside the host
+  H(S("a") \o <<31>> \o S("b"), "c0-us-inside", 0),
+  H(S("a") \o <<1>> \o S("b"), "c0-soh-inside", 0),
   \* ---- IPv4 notations
   H(S("127.0.0.1"), "ipv4-dotted", 1),
   H(S("0x7f.0.0.1"), "ipv4-hex", 1),
